@@ -48,7 +48,7 @@ func layerDiff(h *harness.H) {
 		"non-trivial = at least one committed sample was read back through a node that is not its leaseholder, or (single node) through the node, and compared")
 	h.Assume("a case whose channels never become visible on every node (aspen metadata gossip) is inconclusive, not judged")
 	h.Assume("calls into the distributed writer/iterator that do not return within the watchdog are inconclusive (no deadlock verdict is attempted here)")
-	n := h.N(500, 20000)
+	n := h.N(400, 20000)
 	workers := runtime.GOMAXPROCS(0)
 	if workers > 12 {
 		workers = 12
